@@ -49,52 +49,81 @@ pub fn decode_nat<R>(r: &mut R) -> Result<u128>
 where
     R: io::Read + ?Sized,
 {
-    let mut result = 0;
-    let mut shift = 0;
+    let mut result: u128 = 0;
+    let mut shift: u32 = 0;
     loop {
         let mut buf = [0];
         r.read_exact(&mut buf)?;
-        if shift == 127 && buf[0] != 0x00 && buf[0] != 0x01 {
+        let low_bits = (buf[0] & !CONTINUATION_BIT) as u128;
+        // Bits of this group that land at or beyond bit 128 carry no value in
+        // a u128: they must be zero (padding), otherwise the nat is too large.
+        let overflow = if shift >= 128 {
+            low_bits != 0
+        } else {
+            shift > 121 && (low_bits >> (128 - shift)) != 0
+        };
+        if overflow {
             while buf[0] & CONTINUATION_BIT != 0 {
                 r.read_exact(&mut buf)?;
             }
             return Err(Error::msg("nat overflow"));
         }
-        let low_bits = (buf[0] & !CONTINUATION_BIT) as u128;
-        result |= low_bits << shift;
+        if shift < 128 {
+            result |= low_bits << shift;
+            shift += 7;
+        }
         if buf[0] & CONTINUATION_BIT == 0 {
             return Ok(result);
         }
-        shift += 7;
     }
 }
 pub fn decode_int<R>(r: &mut R) -> Result<i128>
 where
     R: io::Read + ?Sized,
 {
-    let mut result = 0;
-    let mut shift = 0;
-    let size = 128;
-    let mut byte;
+    let mut result: u128 = 0;
+    let mut shift: u32 = 0;
+    // Bits at positions >= 128 carry no value in an i128: the number fits iff
+    // all of them, and bit 127, equal the sign bit of the last group.
+    let mut excess_all_zero = true;
+    let mut excess_all_one = true;
     loop {
         let mut buf = [0];
         r.read_exact(&mut buf)?;
-        byte = buf[0];
-        if shift == 127 && byte != 0x00 && byte != 0x7f {
-            while buf[0] & CONTINUATION_BIT != 0 {
-                r.read_exact(&mut buf)?;
+        let byte = buf[0];
+        let low_bits = (byte & !CONTINUATION_BIT) as u128;
+        if shift < 128 {
+            result |= low_bits << shift;
+            if shift > 121 {
+                let kept = 128 - shift;
+                excess_all_zero &= (low_bits >> kept) == 0;
+                excess_all_one &= (low_bits >> kept) == (0x7f >> kept);
             }
-            return Err(Error::msg("int overflow"));
+            shift += 7;
+        } else {
+            excess_all_zero &= low_bits == 0;
+            excess_all_one &= low_bits == 0x7f;
         }
-        let low_bits = (byte & !CONTINUATION_BIT) as i128;
-        result |= low_bits << shift;
-        shift += 7;
         if byte & CONTINUATION_BIT == 0 {
-            break;
+            let negative = (byte & SIGN_BIT) == SIGN_BIT;
+            if shift < 128 {
+                if negative {
+                    result |= !0 << shift;
+                }
+                return Ok(result as i128);
+            }
+            let value = result as i128;
+            let fits = (value < 0) == negative
+                && if negative {
+                    excess_all_one
+                } else {
+                    excess_all_zero
+                };
+            return if fits {
+                Ok(value)
+            } else {
+                Err(Error::msg("int overflow"))
+            };
         }
     }
-    if shift < size && (byte & SIGN_BIT) == SIGN_BIT {
-        result |= !0 << shift;
-    }
-    Ok(result)
 }
